@@ -178,7 +178,7 @@ Proof.
   destruct (EM.align_buffer_end st al ba _) as [[[a es1] st1]|] eqn:E1; [|discriminate].
   destruct (EM.emit_front _ _) as [[[ref e1] st3]|] eqn:E2; [|discriminate]. injection H as _ _ <-.
   apply (emit_front_sb _ _ _ _ _ E2); [|apply sma_sb; apply (align_buffer_end_sb _ _ _ _ _ _ _ E1 Hst)].
-  bl. rewrite Hd. destruct (negb _); bl.
+  bl. rewrite Hd. destruct (0 <? EM.level st); bl.
 Qed.
 Lemma end_buffer_sb st root r es st' : EM.end_buffer st root = Some (r, es, st') -> sb st -> sb st'.
 Proof.
